@@ -14,13 +14,51 @@ def ttl_focus(r, base):
     return sc
 
 
+def long_finite_ttl(r):
+    """The longest FINITE TTL (0xFFFFFE s, about 194 days) in both stores: the entry lives for millions of seconds, is then
+    refreshed / stopped and re-added / removed by a reboot and re-added (with 0xFFFFFE again or with the infinite TTL), and the
+    run goes on past the ORIGINAL deadline and past the new one: exactly one expiry, at the new deadline, none for 'forever'."""
+    from .. import conv
+    T = scen.T
+    BIG = 0xFFFFFE
+    cfg = list(scen.timings(r))
+    cfg[6] = 0                      # no cyclic offers: the long run stays short in events
+    cfg[4] = 0
+    cfg[10] = None
+    cfg[11] = 0
+    svc = scen.SERVICES[0]
+    p = scen.Peer(1)
+    server = r.random() < 0.5
+    t0 = T
+    age = r.choice([2200000, 3000000, 5000000, 100, 2097152, 2097153]) * T
+    how = r.choice(["refresh", "refresh", "stop-readd", "reboot-readd"])
+    ttl2 = r.choice([BIG, 0xFFFFFF, 3])
+
+    def ent(ttl):
+        return scen.sub_entry(r, svc, 5, ttl, 0, 1, ep_n=1) if server else svc.create_offer_entry(ttl)
+    events = [(0, (1, [17, 1])), (0, (1, [0]))] if server else [(0, (1, [3, conv.s_service(scen.FILTERS[0]), [0, 0]])), (0, (1, [13]))]
+    events.append((t0, (0, 1, False, p.datagram([ent(BIG)], False))))
+    t1 = t0 + age
+    if how == "stop-readd":
+        events.append((t1, (0, 1, False, p.datagram([ent(0)], False))))
+        t1 += r.choice([1, 10 * T])
+    elif how == "reboot-readd":
+        p.reboot()
+        events.append((t1, (0, 1, False, p.datagram([], False))))
+        t1 += r.choice([1, T])
+    events.append((t1, (0, 1, False, p.datagram([ent(ttl2)], False))))
+    end = max(t0 + BIG * T, t1 + (ttl2 if ttl2 != 0xFFFFFF else 0) * T) + 10 * T
+    insts = [(1, conv.s_service(svc), [])] if server else []
+    return dict(cfg=tuple(cfg), insts=insts, draws=[0] * 8, events=events, end=end, rev=r.random() < 0.3, fuel=20000)
+
+
 def run(ctx):
     r = ctx.rng
     quick = ctx.tier == "quick"
     ctx.rule = ("histories of add / refresh / stop / remove-all-for-address (reboot) / connection loss / re-add for several keys and addresses in BOTH "
                 "TimedStore instances (found services, server subscriptions), TTL {1,2,3,infinite}, refreshes anywhere before, exactly at and one tick "
                 "around the deadline (a touch exactly at a pending deadline is accepted either way), both tie orders, runs of 6-12 virtual seconds plus "
-                "infinite-TTL entries observed past 0xFFFFFF s; a stop and a re-add of one entry in ONE message exactly at, around and away from its deadline; judged by check_C09 (per-key expiry history versus the specification); every scenario in which an "
+                "infinite-TTL entries observed past 0xFFFFFF s; the longest finite TTL (0xFFFFFE s) refreshed / re-added after millions of seconds and observed past both deadlines; a stop and a re-add of one entry in ONE message exactly at, around and away from its deadline; judged by check_C09 (per-key expiry history versus the specification); every scenario in which an "
                 "event falls on the tick of a TTL deadline is run a second time with that event delivered a quarter tick EARLY (the expiry then runs while "
                 "loop.time() is below its deadline, as asyncio allows within its clock resolution) and must give the outcome of the exact run")
     ctx.assumptions = ["the loop is never late (virtual time): real-time lateness is outside the model"]
@@ -44,6 +82,8 @@ def run(ctx):
         scs.append(sc)
     r2 = random.Random(ctx.seed * 7919 + 9)       # a stream of its own: the scenarios above stay what they were
     scs += [scen.pair_in_one_message(r2) for _ in range(40 if quick else 1500)]
+    r3 = random.Random(ctx.seed * 7919 + 109)
+    scs += [long_finite_ttl(r3) for _ in range(16 if quick else 200)]
     stackprop.run_scenarios(ctx, scs, 3009, CODES, what="TTL store")
 
 
